@@ -27,6 +27,9 @@ class ExprUnaryModel(ExprModel):
         
         return ret
     
+    def is_signed(self):
+        return self.expr.is_signed()
+
     def width(self):
         # Currently-supported unary expressions have the 
         # same width as the base expression
